@@ -237,6 +237,15 @@ Print Assumptions ALGO_quiescent_equal_full_refuted.
 Example ALGO_ex_inv_and_quiescent :
   Inv g0 (world_init (cfg_std 1) 1016000 1013000) /\ quiescent (world_init (cfg_std 1) 1016000 1013000) = true.
 Proof. split; [apply init_inv; discriminate|reflexivity]. Qed.
+(* the hypotheses of ALGO_inv_reachable / ALGO_quiescent_equal are met by a run in which the engine creates two files,
+   uploads new contents twice and goes quiet with equal trees (recorded from the real engine) *)
+Example ALGO_ex_run :
+  in_F1 (cfg_std 1) (history_of conv_actions) = true /\ one_sided false (history_of conv_actions) = true /\
+  exists w, algo_run (world_init (cfg_std 1) aba_t0 aba_lg0) conv_actions = ROk w /\
+            quiescent w = true /\ views_equal w = true /\
+            In ([[102]], (ProvModel.KFile, 4)) (rel_view w false) /\ In ([[102]], (ProvModel.KFile, 4)) (rel_view w true) /\
+            In ([[103]], (ProvModel.KFile, 1)) (rel_view w true).
+Proof. exact conv_converges. Qed.
 (* the domain of F1 is inhabited by histories that make the engine work *)
 Example ALGO_ex_domain : in_F1 (cfg_std 1) [(false, UCreate [[102]] 2); (true, UCreate [[103]] 1); (false, UWrite [[102]] 3); (false, UDelete [[102]])] = true.
 Proof. reflexivity. Qed.
